@@ -122,6 +122,9 @@ class Gen:
 
     def inner_op(self, pool):
         r = self.r
+        others = [q for q in getattr(self, "pools", []) if q is not pool]
+        if others and r.random() < 0.3:
+            pool = r.choice(others)  # user code of one pool operating on another pool in the same loop
         k = self.wchoice({"cancel": 4, "cancel_group": 4, "cancel_all": 1.5, "stop": 2 if pool["cls"] == "S" else 0,
                           "apply": 2 if pool["cls"] == "T" else 0, "start": 0,
                           "flush": 1, "open": 2, "lock": 0.3, "unlock": 0.3})
@@ -142,7 +145,10 @@ class Gen:
                 return {"op": "stop_all", "pool": pi}
             return {"op": "stop", "pool": pi, "n": r.choice([-1, 0, 1, 1, 2, 2, 3, 5])}
         if k == "flush":
-            return {"op": "flush", "pool": pi, "rex": r.random() < 0.6}
+            st = {"op": "flush", "pool": pi, "rex": r.random() < 0.6}
+            if r.random() < self.p.get("abandon", 0.12):
+                st["abandon"] = r.randint(1, 6)
+            return st
         if k == "open":
             return {"op": "open", "sel": r.choice([["w", r.randint(0, 5)], ["cb", r.randint(0, 5)], ["any", r.randint(0, 5)], ["all"]])}
         if k in ("lock", "unlock"):
@@ -238,6 +244,7 @@ class Gen:
             if p.get("size_track"):
                 ps["size_track"] = True
             pools.append(ps)
+        self.pools = pools
         for ps in pools:
             if ps["cls"] == "S":
                 ps["args"] = r.choice([0, 1, 2])
